@@ -281,13 +281,13 @@ CHECKS["C13"] = {
     "thorough": {"shards": 16, "checks": 2500},
     "rule": "a rapid-generated step sequence (block / undo / Verify(remember); for a partial forest also Prune and Ingest) brings a Pollard, a full or a partial "
             "MapPollard (generated TotalRows) to a reachable state that is first checked against the reference model. Then, per state, enumerated: (a) round trip through "
-            "six reader chunkings (whole, one byte, halves, data-with-EOF, rapid-drawn chunk sizes, the same with EOF on the last chunk): no error, reported "
+            "eight reader set-ups (whole, one byte, halves, data-with-EOF, rapid-drawn chunk sizes, the same with EOF on the last chunk, and whole / chunked with 9000 foreign bytes FOLLOWING the stream in the same reader): no error, reported "
             "and consumed bytes = stream length = Pollard.SerializeSize(), restored instance equals the model (complete observation set; C09 sandwich for a "
             "partial forest) and the original (GetHash everywhere, every leaf position, stored maps incl. remember flags); (b) EVERY strict prefix of the "
             "stream when it has at most 2500 (thorough 6000) bytes, otherwise the first and last 700 offsets plus +-40 around 8-24 rapid-drawn offsets: restore "
             "must return an error or a state identical to the original, never panic, and report no more bytes than it consumed (every 7th prefix also through "
             "the data-with-EOF and chunked readers); (c) a sink failing at each of the same offsets, refusing the crossing write completely or accepting part "
-            "of it: non-nil error, reported count <= accepted bytes (== for the refusing sink), no panic, original unchanged; (d) the original and all six "
+            "of it: non-nil error, reported count <= accepted bytes (== for the refusing sink), no panic, original unchanged; (d) the original and all eight "
             "restored copies are driven through 4-7 further generated steps (>=3 blocks and an undo) and compared with the model and with each other after "
             "every step. Non-trivial: state with >=1 deletion, an empty root or a leaf above row 0, stream >= 200 bytes.",
     "assumptions": COMMON_ASSUME + ["on an error path the reported byte count is only required to lie between 0 and the bytes actually consumed / accepted (a partially delivered read or write may or may not be counted)",
@@ -334,7 +334,7 @@ CHECKS["C15"] = {
     "thorough": {"shards": 16, "checks": 8000},
     "rule": "block histories as in C01 (all deletion / addition shapes) replayed on the reference model only; every block's summary is (the model's canonical targets of the "
             "deleted leaves in request order, as a prover emits them; the addition count). A fresh CachingScheduleTracker is fed the summaries once per memory limit "
-            "(one of 1..3, one uniform in 1..total additions, and in 2 of 3 cases total+0..5 or 2^20) and GenerateCachingSchedule is checked against the model's "
+            "(one of 1..3, one uniform in 1..total additions, and always total+0..5 or 2^20) and GenerateCachingSchedule is checked against the model's "
             "creation / deletion block of every slot: one list per block; strictly ascending; every entry is a slot added by that block and deleted by a later block; "
             "for every block the number of scheduled slots alive there is <= the limit; with a limit >= all leaves ever added every slot with a recorded deletion is "
             "scheduled. Non-trivial: some block empties a tree and adds in the same block, or a limit forced an eviction decision (fewer scheduled than spendable).",
